@@ -79,7 +79,7 @@ PROPS["C11"] = {
 PROPS["C12"] = {
     "deps": ["Proofs/C12_Final.vo", "Proofs/DfsOrderClosed.vo"],
     "props": "Props/C12.v",
-    "suites": [("walk", 1000, 30000), ("pool", 300, 6000)],
+    "suites": [("walk", 5000, 40000), ("pool", 300, 6000)],
     "owner": lambda name: name.startswith("C12.") or name in ("C13.pool_smallest_free", "C13.walk_joins_smallest_free"),
     "assumptions": ["kinds outside C06's known class (invert_configuration unimplemented) and at most 99 closures open, i.e. the traversal returns Ok"],
 }
@@ -94,7 +94,7 @@ PROPS["C03"] = {
 PROPS["C01"] = {
     "deps": ["Proofs/C01.vo", "Proofs/C09_Final.vo", "Proofs/C01_Text.vo"],
     "props": "Props/C01.v",
-    "suites": [("walk", 1000, 30000), ("reader", 600, 12000), ("hist", 400, 8000), ("pool", 300, 6000)],
+    "suites": [("walk", 5000, 40000), ("reader", 600, 12000), ("hist", 400, 8000), ("pool", 1500, 12000)],
     "extra": [extras.large_molecules],
     "owner": lambda name: name.startswith("C01.") or name in ("C12.rebuilt_graph_is_arrival_first", "C02.built_graph_is_denotation", "C09.history_inverse", "C13.walk_joins_smallest_free", "C13.pool_smallest_free"),
     "assumptions": ["kinds outside C06's known class, at most 99 closures open, isotope/map below 1000 (C18)"],
